@@ -145,9 +145,17 @@ BaseMayRoutes(scn, i) ==
   LET f == scn.files[i]
       r0 == MustRoutes(scn, i) \cup {FullRoute(scn, f), OwnRoute(scn, f)}
   IN r0 \cup {r \o <<"/">> : r \in r0}
-Must(scn, p) == {i \in FilesIx(scn) : p \in MustRoutes(scn, i)}
+\* per-scenario table of the served map (computed once per scenario by the trace spec)
+Tab(scn) == [uns  |-> Unsupported(scn),
+             must |-> [i \in FilesIx(scn) |-> MustRoutes(scn, i)],
+             may  |-> [i \in FilesIx(scn) |-> BaseMayRoutes(scn, i)],
+             mime |-> [i \in FilesIx(scn) |-> MimeOfName(FileName(scn.files[i]))]]
+MustT(tab, p) == {i \in DOMAIN tab.must : p \in tab.must[i]}
 \*   ... and a path that becomes one of these by decoding percent-encoded unreserved characters
-May(scn, p) == {i \in FilesIx(scn) : p \in BaseMayRoutes(scn, i) \/ PctDecode(p) \in BaseMayRoutes(scn, i)}
+MayT(tab, p) == LET dp == IF "%" \in RangeOf(p) THEN PctDecode(p) ELSE p
+                IN {i \in DOMAIN tab.may : p \in tab.may[i] \/ dp \in tab.may[i]}
+Must(scn, p) == MustT(Tab(scn), p)
+May(scn, p) == MayT(Tab(scn), p)
 
 \* two files claim the same path: the text cannot be satisfied for both; refusing the mount or serving either is accepted
 Collisions(scn) == {<<i, j>> \in FilesIx(scn) \X FilesIx(scn) : i < j /\ MustRoutes(scn, i) \cap MustRoutes(scn, j) # {}}
@@ -162,42 +170,45 @@ NotFound == [t |-> "404"]
 Unjudged == [t |-> "any"]
 
 \* what a GET to path p may answer
-AllowedGet(scn, p) ==
-  IF (Must(scn, p) \cup May(scn, p)) \cap Unsupported(scn) # {} THEN {Unjudged}
-  ELSE IF Must(scn, p) # {} THEN {Serve(i) : i \in Must(scn, p)}
-  ELSE {NotFound} \cup {Serve(i) : i \in May(scn, p)}
+AllowedGetT(tab, p) ==
+  LET must == MustT(tab, p) IN
+  IF tab.uns # {} /\ (must \cup MayT(tab, p)) \cap tab.uns # {} THEN {Unjudged}
+  ELSE IF must # {} THEN {Serve(i) : i \in must}
+  ELSE {NotFound} \cup {Serve(i) : i \in MayT(tab, p)}
+AllowedGet(scn, p) == AllowedGetT(Tab(scn), p)
 
 \* ------------------------------------------------------------------ judging an observed response
 \* o = [k, status, mt, eq (files whose bytes equal the framed body), eqall (files whose bytes equal everything
 \*      after the head), blen, tail (bytes after the framed body), eqlate, eqout]
 IsResp(o) == o.k = "resp"
-ServesFile(scn, o, i) == /\ IsResp(o) /\ o.status = 200
-                         /\ o.mt = MimeOfName(FileName(scn.files[i]))
+ServesFile(tab, o, i) == /\ IsResp(o) /\ o.status = 200
+                         /\ o.mt = tab.mime[i]
                          /\ i \in RangeOf(o.eq) /\ o.tail = 0
-HeadOfFile(scn, o, i) == /\ IsResp(o) /\ o.status = 200
-                         /\ o.mt = MimeOfName(FileName(scn.files[i]))
+HeadOfFile(tab, o, i) == /\ IsResp(o) /\ o.status = 200
+                         /\ o.mt = tab.mime[i]
                          /\ o.blen = 0 /\ o.tail = 0
 Is404(o) == IsResp(o) /\ o.status = 404
 
-ObsOK(scn, rq, o) ==
+ObsOKT(tab, rq, o) ==
   LET p == PathOf(rq.path)
-      al == AllowedGet(scn, p)
+      al == AllowedGetT(tab, p)
       files == {a.i : a \in {a \in al : a.t = "file"}}
-      served == Must(scn, p) # {}
+      served == NotFound \notin al
   IN \/ Unjudged \in al
      \/ /\ rq.m = "GET"
         /\ \/ (NotFound \in al /\ Is404(o))
-           \/ \E i \in files : ServesFile(scn, o, i)
+           \/ \E i \in files : ServesFile(tab, o, i)
      \* the text is silent on methods: a served path may refuse HEAD/POST (404/405) or treat them like GET;
      \* a path that is not served stays 404 for every method
      \/ /\ rq.m = "HEAD"
-        /\ \/ ((NotFound \in al \/ served) /\ Is404(o))
+        /\ \/ Is404(o)
            \/ (served /\ IsResp(o) /\ o.status = 405)
-           \/ \E i \in files : HeadOfFile(scn, o, i)
+           \/ \E i \in files : HeadOfFile(tab, o, i)
      \/ /\ rq.m = "POST"
-        /\ \/ ((NotFound \in al \/ served) /\ Is404(o))
+        /\ \/ Is404(o)
            \/ (served /\ IsResp(o) /\ o.status = 405)
-           \/ \E i \in files : ServesFile(scn, o, i)
+           \/ \E i \in files : ServesFile(tab, o, i)
+ObsOK(scn, rq, o) == ObsOKT(Tab(scn), rq, o)
 
 \* classification for signatures -----------------------------------------------------------------
 \* class of the request path relative to the tree (computed here, not taken from the generator's label)
@@ -225,7 +236,8 @@ OutcomeClass(scn, rq, o) ==
      LET p == PathOf(rq.path)
          cand == IF Must(scn, p) # {} THEN Must(scn, p) ELSE May(scn, p)
          ctok == \E i \in cand : o.mt = MimeOfName(FileName(scn.files[i])) IN
-     IF cand = {} THEN (IF o.eqout THEN "200-file-outside-directory"
+     IF cand = {} THEN (IF rq.m = "HEAD" THEN "200-head-on-unserved-path"
+                        ELSE IF o.eqout THEN "200-file-outside-directory"
                         ELSE IF o.eqlate THEN "200-content-written-after-mount"
                         ELSE IF o.eq # <<>> \/ o.eqall # <<>> THEN "200-some-file" ELSE "200-other")
      ELSE IF ~ctok THEN "200-wrong-content-type"
